@@ -114,14 +114,16 @@ def check_one(item):
                                                    "args": [fi.short, ci.short, key]}))
     # a package object formatted through str() renders its names with the quote character of its own default
     # context instead of the context's
-    named = ex.tags.sub(r.cls("terms.Term"))
+    named = frozenset(c.short for c in r.classes.values()
+                      if c.resolve("get_sql") and c.resolve("get_sql")[0] == "func")
     byp = {}
     for o in run.outcomes:
         if o.status == "raise":
             continue
         ex.st = o.state
         for ef, g, _l in flat_calls(o.state.effects):
-            if ef.method == "__str__" and (ef.recv_tags is None or ef.recv_tags & named) and \
+            if ef.method == "__str__" and getattr(ef.recv, "label", "") != "value" and \
+                    (ef.recv_tags is None or ef.recv_tags & named) and \
                     ex.smt.feasible(o.state.pc + ([g] if g is not None else [])):
                 byp[recv_key(ex, ef, o.state)] = True
     for rk in sorted(byp):
